@@ -484,7 +484,9 @@ class Check:
         seen = set()
         n_unlisted = 0
         n_known = 0
-        (VERIF / "replays").mkdir(exist_ok=True)
+        noev = bool(os.environ.get("VERIF_NO_EVIDENCE"))
+        rdir = pathlib.Path(tempfile.gettempdir()) / "eko-verif-replays" if noev else VERIF / "replays"
+        rdir.mkdir(exist_ok=True)
         for fp, what, replay in self.violations:
             if fp in seen:
                 continue
@@ -495,7 +497,7 @@ class Check:
                 continue
             n_unlisted += 1
             safe = re.sub(r"[^A-Za-z0-9_.-]+", "_", fp)[:80]
-            path = VERIF / "replays" / f"{self.pid}-{safe}.json"
+            path = rdir / f"{self.pid}-{safe}.json"
             path.write_text(
                 json.dumps(
                     {"property": self.pid, "fingerprint": fp, "what": what, "seed": self.seed,
@@ -507,7 +509,8 @@ class Check:
             print(f"  what: {what}")
             rc = 1
         self.cov["distinct_nontrivial"] = max(self.cov["distinct_nontrivial"], len(self._distinct))
-        self.write_evidence(n_unlisted, n_known)
+        if not noev:
+            self.write_evidence(n_unlisted, n_known)
         shutil.rmtree(self.scratch, ignore_errors=True)
         return rc
 
